@@ -257,6 +257,15 @@ Proof.
   intros. unfold above. induction l; simpl; auto. destruct (n <=? a); simpl; lia.
 Qed.
 
+Lemma NoDup_snoc : forall (l : list nat) x, NoDup l -> ~ In x l -> NoDup (l ++ [x]).
+Proof.
+  induction l; simpl; intros x Hnd Hx.
+  - constructor; auto.
+  - inversion Hnd; subst. constructor.
+    + rewrite in_app_iff. simpl. intros [?|[?|?]]; subst; tauto.
+    + apply IHl; auto.
+Qed.
+
 Lemma spawn_spec : forall n no ths ws act ls ths' ws' act' ls',
   spawn n no ths ws act ls = (ths', ws', act', ls') ->
   NoDup ths ->
@@ -264,13 +273,16 @@ Lemma spawn_spec : forall n no ths ws act ls ths' ws' act' ls',
               length new = n /\ NoDup (ths ++ new) /\ act' = (act + Z.of_nat n)%Z /\
               ls' = ls ++ map LStart new.
 Proof.
-  induction n; simpl; intros.
-  - inversion H; subst. exists []. simpl. rewrite !app_nil_r. repeat split; auto. lia.
-  - remember (first_free (S (length ths)) no ths) as x.
+  induction n; intros no ths ws act ls ths' ws' act' ls' H Hnd.
+  - simpl in H. inversion H; subst. exists []. simpl. rewrite !app_nil_r. repeat split; auto. lia.
+  - cbn [spawn] in H.
+    remember (first_free (S (length ths)) no ths) as x.
     assert (Hx : ~ In x ths).
-    { subst. apply first_free_notin. pose proof (above_le no ths). lia. }
-    apply IHn in H.
-    + destruct H as [new [? [? [? [? [? ?]]]]]]. exists (x :: new).
-      subst. rewrite <- !app_assoc in *. simpl in *. repeat split; auto. lia.
-    + apply NoDup_app_one; auto.
+    { subst x. apply first_free_notin. pose proof (above_le no ths). lia. }
+    apply IHn in H; [|apply NoDup_snoc; auto].
+    destruct H as [new [H1 [H2 [H3 [H4 [H5 H6]]]]]]. exists (x :: new).
+    rewrite <- app_assoc in H1, H2, H4, H6. simpl in H1, H2, H4, H6.
+    repeat split; auto.
+    + simpl. lia.
+    + rewrite H5. rewrite Nat2Z.inj_succ. lia.
 Qed.
